@@ -3,6 +3,7 @@ package main
 import (
 	"bytes"
 	"context"
+	"encoding/json"
 	"fmt"
 	"github.com/ddddddO/gtree"
 	"os"
@@ -280,6 +281,61 @@ func runC06(ctx *Ctx) *Report {
 			}
 		}
 	}
+	// extensions with more than one dot (".tar.gz", ".d.ts"), names that end with them, with a tail of them, with
+	// their tail only; the shorter tail configured as well or not: "ends with a configured extension" is about the
+	// whole configured string, not about what a path library calls the extension of the name
+	{
+		dotted := []string{"vendor.tar.gz", "types.d.ts", "app.min.js", "a.gz", "x.tar", "index.ts", "lib", ".tar.gz", "tar.gz", "b.tar.gz.bak", "c.d.ts.map", "v1.2.3", "x..gz", "archive.tar.gz", "Makefile", "y.spec.ts", ".d.ts", "k.js"}
+		dotExts := [][]string{{".tar.gz"}, {".d.ts"}, {".d.ts", ".go"}, {".min.js", ".tar.gz"}, {".gz", ".tar.gz"}, {".tar.gz", ".gz"}, {"tar.gz"}, {".ts"}, {".spec.ts", ".d.ts", ".tar.gz"}, {"..gz"}, {".2.3"}, {".tar.gz", "Makefile"}, {"r.tar.gz"}, {".tar.gz.bak", ".ts.map"}, {".gz"}, nil}
+		mkDotted := func(r int) *Tree { return &Tree{Name: dotted[r%len(dotted)]} }
+		nDot := 0
+		for k := 0; k < pick(ctx.Thorough, 3000, 260); k++ {
+			f := randForest(ctx.Rng, 2+ctx.Rng.Intn(9), []string{"plain"}, 3, nil)
+			// most nodes get a dotted name (leaves decide file or directory; inner nodes stay directories whatever they are called)
+			var all []*Tree
+			var collect func(t *Tree)
+			collect = func(t *Tree) {
+				all = append(all, t)
+				for _, kid := range t.Kids {
+					collect(kid)
+				}
+			}
+			for _, t := range f {
+				collect(t)
+			}
+			for _, t := range all {
+				if ctx.Rng.Intn(4) != 0 {
+					t.Name = mkDotted(ctx.Rng.Intn(len(dotted))).Name
+				}
+			}
+			if !distinctRoots(f) {
+				continue
+			}
+			doc := spell(f, plainSpelling)
+			c := newCase("mkdir")
+			c.Doc, c.DocText, c.Tree, c.Note = hx(doc), docText(doc), encForest(f), "dotted-extension"
+			c.Exts = dotExts[ctx.Rng.Intn(len(dotExts))]
+			c.Target = []string{"t", "missing/deeper/t"}[ctx.Rng.Intn(2)]
+			if c.Target == "t" {
+				c.Pre = []FSEntry{{"t", "d"}, {"t/other.tar.gz", "f4"}, {"sentinel", "d"}, {"sentinel/keep.tar.gz", "f3"}}
+			}
+			c.Dry = ctx.Rng.Intn(8) == 0
+			if len(f) == 1 && ctx.Rng.Intn(3) == 0 {
+				c.FromRoot, c.Tree, c.Doc = true, f[0].Enc(), ""
+				c.Alias = ctx.Rng.Intn(2) == 0
+			}
+			cases = append(cases, c)
+			nDot++
+			if k%4 == 0 && !c.Dry {
+				// the same with the massive option: entry by entry what the simple mode creates
+				mc := c
+				mc.Kind, mc.Massive = "massive-mkdir", true
+				rep.Record(mc, caseKey(mc), true, runMassiveMkdir(mc))
+				rep.Count("massive-mkdir/dotted-extension")
+			}
+		}
+		rep.Dist["dotted-extension cases"] = nDot
+	}
 	rep.Exhaustive = true
 	rep.Notes = append(rep.Notes, "every forest ≤ "+itoa(n)+" nodes with distinct roots over {a, b.go, Makefile} × rotating extension lists × target states")
 	cases = append(cases, randFSCases(ctx, rep, pick(ctx.Thorough, 6000, 500), "mkdir", false)...)
@@ -514,6 +570,109 @@ func runC07(ctx *Ctx) *Report {
 			}
 		}
 	}
+	// a programmatic tree that has been through operations that do not validate names (text output, walk,
+	// iterator walk, an encoder, a rejected dry run …) and is then given to Mkdir: what an earlier call left
+	// on the nodes must not stand in for the validation of this call
+	{
+		var rcs []reuseCase
+		firsts := []string{"none", "output", "output-alias", "output-fmt", "walk", "walk-alias", "walkiter", "walkiter-break", "json", "dry-rejected", "verify", "output+walk", "output-massive", "walk-massive"}
+		for hi, h := range []string{"../../x", "..", ".", "a/b", "/", "", "../..", "x/", "./x", "a/../../b"} {
+			for pi, pos := range []string{"child", "grandchild", "deep", "root"} {
+				if pos == "root" && strings.HasPrefix(h, "../../") {
+					continue
+				}
+				for fi, first := range firsts {
+					if !ctx.Thorough && (hi+pi+fi)%3 != 0 && fi > 8 {
+						continue
+					}
+					for _, massive := range []bool{false, true} {
+						var t *Tree
+						switch pos {
+						case "child":
+							t = &Tree{Name: "r", Kids: []*Tree{{Name: "a"}, {Name: h, Kids: []*Tree{{Name: "esc"}}}, {Name: "z"}}}
+						case "grandchild":
+							t = &Tree{Name: "r", Kids: []*Tree{{Name: "a", Kids: []*Tree{{Name: "b"}, {Name: h, Kids: []*Tree{{Name: "esc"}}}}}}}
+						case "deep":
+							t = &Tree{Name: "r", Kids: []*Tree{{Name: "a", Kids: []*Tree{{Name: "b", Kids: []*Tree{{Name: "c", Kids: []*Tree{{Name: h}}}}}}}, {Name: "after.go"}}}
+						case "root":
+							t = &Tree{Name: h, Kids: []*Tree{{Name: "a", Kids: []*Tree{{Name: "esc"}}}}}
+						}
+						rcs = append(rcs, reuseCase{Kind: "reuse-mkdir", Tree: t.Enc(), First: first, Massive: massive, Alias: (hi+fi)%2 == 0, Exts: extLists[(hi+fi)%len(extLists)], Hostile: h})
+					}
+				}
+			}
+		}
+		// seeded: random trees over the hostile alphabet, a random sequence of one to three earlier operations
+		for k := 0; k < pick(ctx.Thorough, 4000, 300); k++ {
+			f := randForest(ctx.Rng, 2+ctx.Rng.Intn(8), []string{"plain", "plain", "path", "unicode"}, 1, rep.Dist)
+			var seq []string
+			for j, n := 0, 1+ctx.Rng.Intn(3); j < n; j++ {
+				seq = append(seq, firsts[1+ctx.Rng.Intn(len(firsts)-1)])
+			}
+			rcs = append(rcs, reuseCase{Kind: "reuse-mkdir", Tree: f[0].Enc(), First: strings.Join(seq, ","), Massive: ctx.Rng.Intn(2) == 0, Alias: ctx.Rng.Intn(2) == 0, Exts: extLists[ctx.Rng.Intn(len(extLists))], Hostile: "seeded"})
+		}
+		parallel(rcs, ctx.Workers, func(m *Model, c reuseCase) {
+			diffs, cls := runReuseMkdir(m, c)
+			b, _ := json.Marshal(c)
+			rep.Record(c, string(b), c.First != "none", diffs)
+			rep.Count("reuse-then-mkdir" + ifs(c.Massive, "/massive", "") + ":" + cls)
+		})
+	}
+	// a Mkdir that fails part-way in the file system (a name the OS refuses: longer than NAME_MAX, a NUL byte)
+	// with a target directory that is not the working directory of the process: the working directory holds
+	// entries named like the roots (workdir.go), and they are checked after every case
+	{
+		refused := []string{strings.Repeat("L", 300), "nul\x00byte", strings.Repeat("é", 150), strings.Repeat("m", 256) + ".go"}
+		var oc []Case
+		for k := 0; k < pick(ctx.Thorough, 1500, 120); k++ {
+			f := randForest(ctx.Rng, 3+ctx.Rng.Intn(7), []string{"plain"}, 2, rep.Dist)
+			if !distinctRoots(f) {
+				continue
+			}
+			// the refused name goes to a node that is not a root (so the tree passes validation and the root is begun)
+			var inner []*Tree
+			var collect func(t *Tree, depth int)
+			collect = func(t *Tree, depth int) {
+				if depth > 0 {
+					inner = append(inner, t)
+				}
+				for _, kid := range t.Kids {
+					collect(kid, depth+1)
+				}
+			}
+			for _, t := range f {
+				collect(t, 0)
+			}
+			if len(inner) == 0 {
+				continue
+			}
+			inner[ctx.Rng.Intn(len(inner))].Name = refused[ctx.Rng.Intn(len(refused))]
+			c := newCase("mkdir")
+			doc := spell(f, plainSpelling)
+			c.Doc, c.DocText, c.Exts, c.Note = hx(doc), "<a name the OS refuses below "+f[0].Name+">", extLists[ctx.Rng.Intn(len(extLists))], "os-refusal"
+			c.Target = []string{"t", "sub/t", "missing/deeper/t"}[ctx.Rng.Intn(3)]
+			if c.Target != "missing/deeper/t" {
+				c.Pre = []FSEntry{{c.Target, "d"}}
+				if c.Target == "sub/t" {
+					c.Pre = []FSEntry{{"sub", "d"}, {"sub/t", "d"}}
+				}
+			}
+			c.Pre = append(c.Pre, FSEntry{"sib", "d"}, FSEntry{"sib/secret", "f5"})
+			if len(f) == 1 && ctx.Rng.Intn(2) == 0 {
+				c.FromRoot, c.Tree, c.Doc = true, f[0].Enc(), ""
+				c.Alias = ctx.Rng.Intn(2) == 0
+			}
+			oc = append(oc, c)
+		}
+		cases = append(cases, oc...)
+		for _, c := range oc {
+			// the massive option on every one of them (below only every third case gets it)
+			mc := c
+			mc.Kind, mc.Massive, mc.Note = "massive-mkdir", true, "os-refusal/massive"
+			rep.Record(mc, caseKey(mc), true, runMassiveMkdir(mc))
+			rep.Count("massive-mkdir/os-refusal")
+		}
+	}
 	cases = append(cases, randFSCases(ctx, rep, pick(ctx.Thorough, 6000, 500), "mkdir", true)...)
 	var mcases []Case
 	for i, c := range cases {
@@ -701,6 +860,84 @@ func runC08(ctx *Ctx) *Report {
 		rep.Record(c, caseKey(c), len(c.Pre) >= 3, diffs)
 		rep.Count("result:" + resultClass(realv) + ifs(c.Strict, "/strict", ""))
 	})
+	// the same root object verified (or created) under one target directory and then under another one: an
+	// ancestor of the first ("out/stage", then "out"), a descendant, a sibling whose name begins alike, an unrelated
+	// one. What a call leaves on the nodes must not decide where the next call looks.
+	{
+		pool := []string{"out/stage", "out", "out/stage/deeper", "elsewhere", "out/stage2", "o"}
+		ancestors := map[string][]string{"out/stage": {"out"}, "out/stage/deeper": {"out/stage", "out"}, "out/stage2": {"out"}}
+		ops := []string{"verify", "verify-strict", "verify", "mkdir"}
+		var rts []retargetCase
+		for k := 0; k < pick(ctx.Thorough, 5000, 400); k++ {
+			f := randForest(ctx.Rng, 1+ctx.Rng.Intn(7), []string{"plain"}, 1, rep.Dist)
+			paths, _ := nodePaths([]*Tree{addMirror(f[0])})
+			c := retargetCase{Kind: "retarget", Tree: f[0].Enc(), Massive: ctx.Rng.Intn(2) == 0, Alias: ctx.Rng.Intn(4) == 0}
+			// what the directories hold: per target nothing, the directory only, the whole tree, the tree without one
+			// node, the tree and something more
+			have := map[string]bool{}
+			add := func(p, kind string) {
+				els := strings.Split(p, "/")
+				for i := 1; i < len(els); i++ {
+					if a := strings.Join(els[:i], "/"); !have[a] {
+						have[a] = true
+						c.Pre = append(c.Pre, FSEntry{a, "d"})
+					}
+				}
+				if !have[p] {
+					have[p] = true
+					c.Pre = append(c.Pre, FSEntry{p, kind})
+				}
+			}
+			for _, tg := range pool {
+				switch ctx.Rng.Intn(6) {
+				case 0:
+				case 1:
+					add(tg, "d")
+				case 2, 3:
+					for _, p := range paths {
+						add(tg+"/"+p, "d")
+					}
+				case 4:
+					skip := ctx.Rng.Intn(len(paths))
+					for _, p := range paths {
+						if p != paths[skip] && !strings.HasPrefix(p, paths[skip]+"/") {
+							add(tg+"/"+p, "d")
+						}
+					}
+				case 5:
+					for _, p := range paths {
+						add(tg+"/"+p, "d")
+					}
+					add(tg+"/"+paths[ctx.Rng.Intn(len(paths))]+"/zz-extra", []string{"d", "f1"}[ctx.Rng.Intn(2)])
+				}
+			}
+			first := pool[ctx.Rng.Intn(len(pool))]
+			if ctx.Rng.Intn(2) == 0 {
+				first = []string{"out/stage", "out/stage/deeper", "out/stage2"}[ctx.Rng.Intn(3)]
+			}
+			c.Steps = append(c.Steps, rtStep{ops[ctx.Rng.Intn(len(ops))], first})
+			for j, n := 0, 1+ctx.Rng.Intn(3); j < n; j++ {
+				tg := pool[ctx.Rng.Intn(len(pool))]
+				if as := ancestors[c.Steps[len(c.Steps)-1].Target]; len(as) > 0 && ctx.Rng.Intn(3) != 0 {
+					tg = as[ctx.Rng.Intn(len(as))]
+				}
+				c.Steps = append(c.Steps, rtStep{ops[ctx.Rng.Intn(len(ops))], tg})
+			}
+			rts = append(rts, c)
+		}
+		// the plain history of somebody who stages a site and publishes it
+		for _, massive := range []bool{false, true} {
+			rts = append(rts, retargetCase{Kind: "retarget", Tree: (&Tree{Name: "site", Kids: []*Tree{{Name: "css", Kids: []*Tree{{Name: "main"}}}, {Name: "img"}}}).Enc(), Massive: massive,
+				Pre:   []FSEntry{{"out", "d"}},
+				Steps: []rtStep{{"verify", "out"}, {"mkdir", "out/stage"}, {"verify-strict", "out/stage"}, {"verify", "elsewhere"}, {"verify", "out/stage"}, {"verify", "out"}, {"mkdir", "out"}, {"verify-strict", "out"}}})
+		}
+		parallel(rts, ctx.Workers, func(m *Model, c retargetCase) {
+			diffs := runRetarget(m, c)
+			b, _ := json.Marshal(c)
+			rep.Record(c, string(b), len(c.Steps) >= 2, diffs)
+			rep.Count("retarget" + ifs(c.Massive, "/massive", ""))
+		})
+	}
 	// a root that is a symbolic link: to a directory that matches (verifies), to nothing (every path is missing)
 	{
 		doc := []byte("- r\n  - a\n    - b.go\n  - c\n")
@@ -908,4 +1145,228 @@ func runC09(ctx *Ctx) *Report {
 		rep.Count("rel:dry-predicts-real")
 	})
 	return rep
+}
+
+// ---------------------------------------------------------------- a tree that was used before, then Mkdir (C07)
+
+type reuseCase struct {
+	Kind    string   `json:"kind"`
+	Tree    string   `json:"tree"`
+	First   string   `json:"earlier_operations"` // comma-separated, run on the same root object before Mkdir
+	Massive bool     `json:"massive,omitempty"`
+	Alias   bool     `json:"alias,omitempty"`
+	Exts    []string `json:"exts,omitempty"`
+	Hostile string   `json:"hostile,omitempty"`
+}
+
+func init() {
+	replayers["reuse-mkdir"] = func(m *Model, raw json.RawMessage) []Diff {
+		var c reuseCase
+		json.Unmarshal(raw, &c)
+		d, _ := runReuseMkdir(m, c)
+		return d
+	}
+}
+
+// earlierUse runs one operation on the root and throws its result away.
+func earlierUse(root *gtree.Node, op string, target string) {
+	nop := func(*gtree.WalkerNode) error { return nil }
+	var sink lockedBuf
+	switch op {
+	case "output":
+		gtree.OutputFromRoot(&sink, root)
+	case "output-alias":
+		gtree.OutputProgrammably(&sink, root)
+	case "output-fmt":
+		gtree.OutputFromRoot(&sink, root, fmtOpts(fmtCustom)...)
+	case "output-massive":
+		gtree.OutputFromRoot(&sink, root, gtree.WithMassive(context.Background()))
+		sink.finish()
+	case "json":
+		gtree.OutputFromRoot(&sink, root, gtree.WithEncodeJSON())
+	case "walk":
+		gtree.WalkFromRoot(root, nop)
+	case "walk-alias":
+		gtree.WalkProgrammably(root, nop)
+	case "walk-massive":
+		gtree.WalkFromRoot(root, nop, gtree.WithMassive(context.Background()))
+	case "walkiter":
+		for _, err := range gtree.WalkIterFromRoot(root) {
+			if err != nil {
+				break
+			}
+		}
+	case "walkiter-break":
+		k := 0
+		for range gtree.WalkIterFromRoot(root) {
+			if k++; k == 2 {
+				break
+			}
+		}
+	case "output+walk":
+		gtree.OutputFromRoot(&sink, root)
+		gtree.WalkFromRoot(root, nop)
+	case "dry-rejected":
+		colorOutMu.Lock()
+		old := colorOutput()
+		setColorOutput(&lockedBuf{})
+		gtree.MkdirFromRoot(root, gtree.WithTargetDir(target), gtree.WithDryRun())
+		setColorOutput(old)
+		colorOutMu.Unlock()
+	case "verify":
+		gtree.VerifyFromRoot(root, gtree.WithTargetDir(target))
+	}
+}
+
+// runReuseMkdir: Mkdir of a root object that earlier operations have already grown does what the model says for
+// the tree (the model knows nothing of earlier calls): same error, same file system; with the massive option the
+// same verdict about the names and nothing outside the target directory.
+func runReuseMkdir(m *Model, c reuseCase) ([]Diff, string) {
+	t := parseTreeEnc(c.Tree)
+	root := buildRoot(t)
+	jail := newJail()
+	defer os.RemoveAll(jail)
+	populate(jail, []FSEntry{{"x", "d"}, {"x/t", "d"}, {"x/sib", "d"}, {"x/sib/secret", "f5"}, {"keep", "f2"}, {"escaped-guard", "d"}})
+	target := filepath.Join(jail, "x", "t")
+	for _, op := range strings.Split(c.First, ",") {
+		earlierUse(root, op, target)
+	}
+	before := snapshot(jail)
+	opts := []gtree.Option{gtree.WithTargetDir(target), gtree.WithFileExtensions(c.Exts)}
+	if c.Massive {
+		opts = append(opts, gtree.WithMassive(context.Background()))
+	}
+	var err error
+	if c.Alias {
+		err = gtree.MkdirProgrammably(root, opts...)
+	} else {
+		err = gtree.MkdirFromRoot(root, opts...)
+	}
+	if c.Massive {
+		time.Sleep(5 * time.Millisecond)
+	}
+	after := snapshot(jail)
+	resp := m.Ask("mkdirroot " + fmtDefault.enc() + " " + hxList(c.Exts) + " " + hxs(target) + " 0 " + encFS(jail, before) + " " + addMirror(t).Enc())
+	modelv := resp
+	if strings.HasPrefix(resp, "fs=") {
+		parts := strings.SplitN(resp, " ", 2)
+		modelv = "fs=" + stripAmbient(jail, strings.TrimPrefix(parts[0], "fs=")) + " " + parts[1]
+	}
+	realv := "fs=" + strings.Join(after, ",") + " w=- e=" + classify(err)
+	var d []Diff
+	what := "mkdir of a root that has been through: " + c.First
+	if !c.Massive {
+		d = append(d, cmp(what, realv, modelv)...)
+	} else {
+		if a, b := errClass(classify(err)), resultClass(modelv); a != b && !(strings.HasPrefix(a, "os") && strings.HasPrefix(b, "os")) {
+			d = append(d, Diff{What: what + " (massive option: the error class)", Real: realv, Model: modelv})
+		}
+	}
+	// nothing outside the target directory, whatever happened
+	had := map[string]bool{}
+	for _, e := range before {
+		had[e] = true
+	}
+	now := map[string]bool{}
+	for _, e := range after {
+		now[e] = true
+		pth := string(unhx(strings.SplitN(e, ":", 2)[0]))
+		if !had[e] && !strings.HasPrefix(pth, target+"/") {
+			d = append(d, Diff{What: what + ": something was created or changed outside the target directory", Real: pth, Model: "inside " + target})
+		}
+	}
+	for _, e := range before {
+		if !now[e] {
+			d = append(d, Diff{What: what + ": something that existed before is gone or changed", Real: string(unhx(strings.SplitN(e, ":", 2)[0])), Model: "untouched"})
+		}
+	}
+	return d, resultClass(modelv)
+}
+
+// ---------------------------------------------------------------- one root object, several target directories (C08)
+
+type rtStep struct {
+	Op     string `json:"op"` // verify | verify-strict | mkdir
+	Target string `json:"target"`
+}
+
+type retargetCase struct {
+	Kind    string    `json:"kind"`
+	Tree    string    `json:"tree"`
+	Steps   []rtStep  `json:"steps"`
+	Massive bool      `json:"massive,omitempty"`
+	Alias   bool      `json:"alias,omitempty"`
+	Pre     []FSEntry `json:"pre,omitempty"`
+}
+
+func init() {
+	replayers["retarget"] = func(m *Model, raw json.RawMessage) []Diff {
+		var c retargetCase
+		json.Unmarshal(raw, &c)
+		return runRetarget(m, c)
+	}
+}
+
+// runRetarget: the same root object goes through Verify / Mkdir calls with different target directories (a
+// directory, then its ancestor, a descendant, an unrelated one). Every verdict is the model's for the tree, the
+// target directory of that call and the file system as it is at that moment, and it is the verdict a fresh tree of
+// the same shape gets.
+func runRetarget(m *Model, c retargetCase) []Diff {
+	t := parseTreeEnc(c.Tree)
+	root := buildRoot(t)
+	jail := newJail()
+	defer os.RemoveAll(jail)
+	populate(jail, c.Pre)
+	var d []Diff
+	for si, st := range c.Steps {
+		target := filepath.Join(jail, st.Target)
+		before := snapshot(jail)
+		opts := []gtree.Option{gtree.WithTargetDir(target)}
+		if c.Massive {
+			opts = append(opts, gtree.WithMassive(context.Background()))
+		}
+		what := fmt.Sprintf("step %d (%s in %s) on a root that has been through %d earlier calls", si, st.Op, st.Target, si)
+		switch st.Op {
+		case "verify", "verify-strict":
+			strict := st.Op == "verify-strict"
+			if strict {
+				opts = append(opts, gtree.WithStrictVerify())
+			}
+			var err error
+			if c.Alias {
+				err = gtree.VerifyProgrammably(root, opts...)
+			} else {
+				err = gtree.VerifyFromRoot(root, opts...)
+			}
+			fresh := gtree.VerifyFromRoot(buildRoot(t), opts...)
+			modelv := m.Ask("verifyroot " + hxs(target) + " " + b01(strict) + " " + encFS(jail, before) + " " + addMirror(t).Enc())
+			d = append(d, cmp(what+": verdict vs model", "e="+classify(err), modelv)...)
+			d = append(d, cmp(what+": verdict vs a fresh tree of the same shape", "e="+classify(err), "e="+classify(fresh))...)
+			if after := snapshot(jail); strings.Join(after, ",") != strings.Join(before, ",") {
+				d = append(d, Diff{What: what + ": verify changed the file system", Real: strings.Join(after, ","), Model: strings.Join(before, ",")})
+			}
+		case "mkdir":
+			var err error
+			if c.Alias {
+				err = gtree.MkdirProgrammably(root, opts...)
+			} else {
+				err = gtree.MkdirFromRoot(root, opts...)
+			}
+			if c.Massive {
+				time.Sleep(3 * time.Millisecond)
+			}
+			after := snapshot(jail)
+			resp := m.Ask("mkdirroot " + fmtDefault.enc() + " _ " + hxs(target) + " 0 " + encFS(jail, before) + " " + addMirror(t).Enc())
+			modelv := resp
+			if strings.HasPrefix(resp, "fs=") {
+				parts := strings.SplitN(resp, " ", 2)
+				modelv = "fs=" + stripAmbient(jail, strings.TrimPrefix(parts[0], "fs=")) + " " + parts[1]
+			}
+			d = append(d, cmp(what+": result vs model", "fs="+strings.Join(after, ",")+" w=- e="+classify(err), modelv)...)
+		}
+		if len(d) > 0 {
+			break
+		}
+	}
+	return d
 }
